@@ -108,17 +108,31 @@ class MatchAPI(Family):
                             continue
                         out.append({"N": N, "grid": [str(g) for g in grid], "M": M, "mode": mode, "trule": tr,
                                     "rrule": rr, "alpha": str(alpha)})
+        # typed inputs: the processed values given as integers (ndarray of an integer dtype / list of Python ints);
+        # the reference stays symbolic, so the required displacement is an arbitrary real
+        grid = gap_grids(5, tier)[-1]
+        for ytype in ("int-array", "int-list"):
+            for mode in ("closest", "indices"):
+                for (tr, rr) in rules[:2]:
+                    out.append({"N": 5, "grid": [str(g) for g in grid], "M": 2, "mode": mode, "trule": tr, "rrule": rr,
+                                "alpha": "2" if mode == "closest" else "1", "ytype": ytype})
         return out
 
-    def run(self, ctx, inst, N, grid, M, mode, trule, rrule, alpha):
+    def run(self, ctx, inst, N, grid, M, mode, trule, rrule, alpha, ytype=None):
         from traffic_weaver import match
         alpha_f = Fraction(alpha)
         alpha_arg = (ctx.const(alpha_f) if ctx.symbolic else float(alpha_f))
         gx = [Fraction(g) for g in grid]
         x = cx(ctx, gx)
-        ys = ctx.reals("y", N)
         rs = ctx.reals("r", M)
-        y = arr(ctx, ys)
+        if ytype:
+            ctx.typed_inputs = True
+            ints = [3, -1, 4, 1, 5, 9, 2, 6][:N]
+            y = np.array(ints) if ytype == "int-array" else list(ints)
+            ys = [Sym.lift(v) for v in ints] if ctx.symbolic else [float(v) for v in ints]
+        else:
+            ys = ctx.reals("y", N)
+            y = arr(ctx, ys)
         y_in = [v for v in ys]
         kw = {}
         X = [ctx.exact(float(g)) if not ctx.symbolic else Sym.lift(g) for g in gx]
